@@ -30,6 +30,11 @@ def setInit (x y : List α) : List α :=
   match x with
   | [] => []
   | _ :: _ => y ++ [last0 x]
+/-- `x[0] = v` (on an empty `x` numpy raises `IndexError`; the reading leaves it empty) -/
+def setHead (x : List α) (v : α) : List α :=
+  match x with
+  | [] => []
+  | _ :: t => v :: t
 /-- `np.zeros_like(x)` -/
 def zerosLike (x : List α) : List α := x.map (fun _ => (Lit.dec 0 0 : α))
 /-- `x[a:b]` for `0 ≤ a`, `0 ≤ b` -/
